@@ -12,9 +12,9 @@ import (
 var symbols = []string{"a", "b", "k", "/", "/", "*", "?", "[", "]", "\\", "\"", "'", "<", ">", "&", "\u2028", "\u2029",
 	"\u00e9", "\u65e5", "\U0001F600", " ", "\n", "\t", "\u0000", "{", "}", ":", ",", "-", "^", "%", ".", "\ufffd", "0"}
 
-var cleanSegs = []string{"a", "b", "ab", "c1", "a*", "x?", "[k]", "d\\e", "ü", "<v>", "\"q\"", " ", "lease", "n&m", "日本"}
+var cleanSegs = []string{"a", "b", "ab", "c1", "a*", "x?", "[k]", "d\\e", "ü", "<v>", "\"q\"", "\u2028", "lease", "n&m", "日本"}
 
-var tableNames = []string{"t1", "foo", "a*b", "x?", "sys", "q[1]", "日本", "<t>&\"", "t 1", "foo2", " t", "b\\c"}
+var tableNames = []string{"t1", "foo", "a*b", "x?", "sys", "q[1]", "日本", "<t>&\"", "t 1", "foo2", "\u2028t", "b\\c"}
 
 type gen struct {
 	r       *rand.Rand
